@@ -5,8 +5,8 @@ PROP="$1"; ID="$2"; WT=/tmp/wt_$PROP; OUT=/tmp/wt_${PROP}_out
 git -C /tmp/pristine_tree checkout -q -- . 
 git -C $WT diff > /tmp/cur_$PROP.diff
 if ! [ -s /tmp/cur_$PROP.diff ]; then git -C $WT apply $OUT/patch.diff; git -C $WT diff > /tmp/cur_$PROP.diff; fi
-( cd $OUT && timeout 900 sh ./run.sh $WT > /tmp/seed_mod_$PROP.log 2>&1 ); rc_mod=$?
-( cd $OUT && timeout 900 sh ./run.sh /tmp/pristine_tree > /tmp/seed_pri_$PROP.log 2>&1 ); rc_pri=$?
+( cd $OUT && timeout 900 bash ./run.sh $WT > /tmp/seed_mod_$PROP.log 2>&1 ); rc_mod=$?
+( cd $OUT && timeout 900 bash ./run.sh /tmp/pristine_tree > /tmp/seed_pri_$PROP.log 2>&1 ); rc_pri=$?
 ( cd $WT && /venv/bin/python -m pytest -q -p no:cacheprovider --timeout=900 2>&1 | tail -1 > /tmp/seed_test_$PROP.log )
 echo "modified rc=$rc_mod pristine rc=$rc_pri tests: $(cat /tmp/seed_test_$PROP.log)"
 if [ $rc_mod -ne 0 ] && [ $rc_pri -eq 0 ] && grep -q "34 passed" /tmp/seed_test_$PROP.log; then
